@@ -93,13 +93,13 @@ def _zip_chain(ret: T):
 def check(ctx):
     prog = ctx.prog
     ctx.analysed_fn(FI, FP, FA, IDP)
-    _by_index(ctx, prog)
-    _by_path(ctx, prog)
-    _by_angle(ctx, prog)
-    _dispatch(ctx, prog)
-    _callers(ctx, prog)
+    ctx.section(_by_index, ctx, prog)
+    ctx.section(_by_path, ctx, prog)
+    ctx.section(_by_angle, ctx, prog)
+    ctx.section(_dispatch, ctx, prog)
+    ctx.section(_callers, ctx, prog)
     from .c11 import accumulated_distances_rule
-    accumulated_distances_rule(ctx, "C10.10")
+    ctx.section(accumulated_distances_rule, ctx, "C10.10")
 
 
 def _callers(ctx, prog):
